@@ -66,6 +66,7 @@ Step(e) ==
     \/ e.op = "set" /\ e.var = "cv" /\ SetC(e.v) /\ Obs(e)
     \/ e.op = "set" /\ e.var = "px" /\ SetP(e.p, e.v) /\ Obs(e)
     \/ e.op = "remove" /\ Remove(e.var) /\ Obs(e)
+    \/ e.op = "declare" /\ Declare(e.var) /\ Obs(e)
     \/ e.op = "turn" /\ Turn /\ Obs(e)
     \/ e.op = "gend" /\ GameEnd /\ Obs(e)
     \/ e.op = "gstart" /\ GameStart /\ Obs(e)
